@@ -73,3 +73,25 @@ func TestFindLiarNameBudgetWrap(t *testing.T) {
 		t.Errorf("got %+v", l)
 	}
 }
+func TestFindLiarThorough(t *testing.T) {
+	for _, c := range []struct{ hex, want string }{
+		{"0061736d010000000105016000017d03020100070501016600000a0901070096010080580b0024046e616d6502030100000016046e616d6501088080808001030166000504795bc808", "name-count"},
+		{"0061736d01000000010401600000030201000a1d010101ffffffff0f7efd0c393039303930393039303930393039301a0b000a046e616d650203010000", "locals-count"},
+	} {
+		b, _ := hex.DecodeString(c.hex)
+		l, ok := FindLiar(b)
+		if !ok || l.Class != c.want {
+			t.Errorf("%s...: got %+v %v want %s", c.hex[:40], l, ok, c.want)
+		}
+	}
+}
+func TestAllocSite(t *testing.T) {
+	log := []byte("runtime.makeslice(0x7c44e0?, 0xc00010a030?, 0xc00021c238?)\n\t/usr/lib/go/src/runtime/slice.go:116 +0x49\ngithub.com/tetratelabs/wazero/internal/wasm/binary.decodeTypeSection(0x1ff, 0xc00010a030)\n\t/repo/internal/wasm/binary/section.go:19 +0x9b\n")
+	if s := allocSite(log); s != "binary.decodeTypeSection" {
+		t.Errorf("got %q", s)
+	}
+	c, _, _ := classify([]byte{0, 'a', 's', 'm', 1, 0, 0, 0}, nil, "alloc-site:"+allocSite(log))
+	if allocSigClass(c) != "declared-size:in-decoder-binary.decodeTypeSection" {
+		t.Errorf("got %q", allocSigClass(c))
+	}
+}
